@@ -1079,12 +1079,14 @@ impl<'a> TLVSequence<'a> {
     fn container_value_len(&self, control: TLVControl) -> Result<usize, Error> {
         if control.value_type.is_container() {
             let mut next = self.clone();
-            let mut len = 0;
+            let mut len = 0usize;
             let mut level = 1;
 
             while level > 0 {
                 next = next.next_enter()?;
-                len += next.len()?;
+                len = len
+                    .checked_add(next.len()?)
+                    .ok_or(ErrorCode::TLVTypeMismatch)?;
 
                 let control = next.control()?;
 
@@ -1110,9 +1112,9 @@ impl<'a> TLVSequence<'a> {
     fn len(&self) -> Result<usize, Error> {
         let control = self.control()?;
 
-        self.value_len(control).map(|value_len| {
-            1 + control.tag_type.size() + control.value_type.variable_size_len() + value_len
-        })
+        let value_len = self.value_len(control)?;
+
+        Self::checked_len(control, value_len)
     }
 
     /// Return the length of the first TLV element in the sequence, regardless of the element type.
@@ -1120,9 +1122,26 @@ impl<'a> TLVSequence<'a> {
     pub(crate) fn container_len(&self) -> Result<usize, Error> {
         let control = self.control()?;
 
-        self.container_value_len(control).map(|value_len| {
-            1 + control.tag_type.size() + control.value_type.variable_size_len() + value_len
-        })
+        let value_len = self.container_value_len(control)?;
+        let len = Self::checked_len(control, value_len)?;
+
+        // The length field of a string is under the control of the peer:
+        // never report an element as longer than the data that is there
+        if len > self.0.len() {
+            Err(ErrorCode::TLVTypeMismatch)?;
+        }
+
+        Ok(len)
+    }
+
+    /// The length of a TLV element with the given control byte and value length:
+    /// control byte + tag + length field + value, guarding against overflow
+    /// (the length field of a string may hold any 64-bit value).
+    #[inline(always)]
+    fn checked_len(control: TLVControl, value_len: usize) -> Result<usize, Error> {
+        (1 + control.tag_type.size() + control.value_type.variable_size_len())
+            .checked_add(value_len)
+            .ok_or_else(|| ErrorCode::TLVTypeMismatch.into())
     }
 
     /// Returns a sub-slice representing the start of the next TLV element in the sequence.
